@@ -1,1 +1,6 @@
-pub fn y() {}
+pub mod binfield;
+pub mod engine;
+pub mod fieldapi;
+pub mod ftypes;
+pub mod gen;
+pub mod props;
